@@ -30,6 +30,11 @@ path = "src/sweep.rs"
 [dependencies]
 join = { path = "%s/join" }
 futures = "0.3.0"
+tokio = { version = "1.0.1", features = ["rt", "rt-multi-thread", "time", "macros"] }
+
+[features]
+default = ["tokio_rt"]
+tokio_rt = []
 
 [workspace]
 
@@ -38,7 +43,7 @@ debug = 0
 opt-level = 1
 
 [lints.rust]
-unexpected_cfgs = { level = "allow", check-cfg = ['cfg(kani)'] }
+unexpected_cfgs = { level = "allow", check-cfg = ['cfg(kani)', 'cfg(feature, values("tokio_rt"))'] }
 """
 
 SWEEP_RS = r"""// native sweep: every harness x `nvec` sampled kani::any() vectors; prints one JSON line per harness
